@@ -819,7 +819,7 @@ func (fr *Frame) applyContractVars(c *Contract, fn *ssa.Function, cc *ssa.CallCo
 	default:
 		if c.HavocExt {
 			for _, n := range fr.R.Heap.Names() {
-				if strings.HasPrefix(n, "F.") && !fr.moduleComp(n) {
+				if !fr.moduleOwnedComp(n) {
 					fr.R.Heap.Havoc(fr.st, n)
 				}
 			}
